@@ -368,7 +368,11 @@ fn analyse(
                     if has_header && has_data {
                         st.segments_with_header_and_data_pending += 1;
                     }
-                    let (subs, _ex) = subsets(n, rng, if thorough { 256 } else { 48 });
+                    let big_file = durable.len() > (4 << 20) || len_now > (4 << 20);
+                    let (mut subs, _ex) = subsets(n, rng, if big_file { 4 } else if thorough { 256 } else { 48 });
+                    if big_file && subs.len() > 40 {
+                        subs.truncate(40);
+                    }
                     let base_len = (len_now as usize).max(durable.len());
                     for (si, s) in subs.iter().enumerate() {
                         let mut img = durable.clone();
@@ -413,7 +417,9 @@ fn analyse(
                     if let Some(hi) = pending.iter().position(|w| (w.off as usize) < 2 * ps) {
                         let hw = pending[hi].clone();
                         let words = 13usize; // page header (4 words) + record (9 words)
-                        let masks: Vec<u32> = if thorough && k < 2 {
+                        let masks: Vec<u32> = if big_file {
+                            vec![0, 1, 0b1111, 0b1_1111_1111, (1 << 13) - 1, 0b1_1111_1111_0000, 0b1_0101_0101_0101]
+                        } else if thorough && k < 2 {
                             (0..(1u32 << words)).collect()
                         } else {
                             let mut m: Vec<u32> = (0..=words as u32).map(|p| (1u32 << p) - 1).collect(); // prefixes
@@ -473,7 +479,14 @@ pub fn run(ctx: &Ctx) -> Shard {
     } else {
         gen_workloads(ctx, &mut rng)
     };
+    let t_start = std::time::Instant::now();
+    let budget_s: u64 = ctx.get("budget_s").and_then(|s| s.parse().ok()).unwrap_or(if ctx.thorough() { 420 } else { 90 });
+    let mut skipped = 0u64;
     for wl in &workloads {
+        if t_start.elapsed().as_secs() > budget_s && ctx.replay.is_none() {
+            skipped += 1;
+            continue;
+        }
         let h = &wl.history;
         let path = scratch.fresh("rec");
         let log = scratch.path("iolog.bin");
@@ -536,7 +549,8 @@ pub fn run(ctx: &Ctx) -> Shard {
     shard.distinct = st.distinct.clone();
     shard.nontrivial = st.distinct.clone();
     shard.evaluations = st.images.max(shard.evaluations);
-    shard.count("workloads", workloads.len() as u64);
+    shard.count("workloads", workloads.len() as u64 - skipped);
+    shard.count("workloads_skipped_by_time_budget", skipped);
     shard.count("commits_analysed", st.commits);
     shard.count("write_events_recorded", st.writes);
     shard.count("sync_events_recorded", st.syncs);
